@@ -6,10 +6,13 @@ import ast
 import itertools
 
 from sa import term as T
-from sa.interp import Interp, SObj
+from sa.interp import Interp, SObj, SVar
 from sa.load import AnalysisError, Repo, loc
 from sa.report import Run
 from sa.scipp_model import Model
+from sa.term import Rat
+from sa.units import Unit
+from sa.witness import WitnessInterp, WitnessModel, items_of, sym_scalar
 from spec import cif11
 
 MOD = 'io.cif'
@@ -50,8 +53,32 @@ class Person:
         self.email, self.address, self.orcid_id = email, address, orcid_id
 
 
-def norm_(node) -> str:
-    return ast.unparse(node).replace(' ', '')
+class CifModel(WitnessModel):
+    """WitnessModel plus a text sink that passes for an open text file."""
+
+    def _isinstance(self, interp, x, t, node):
+        if isinstance(x, Sink):
+            if isinstance(t, tuple):
+                return True
+            return getattr(t, 'path', '') in ('typing.TextIO', 'io.StringIO')
+        return super()._isinstance(interp, x, t, node)
+
+    def call_ext(self, interp, path, args, kwargs, node):
+        if path == 'contextlib.nullcontext':
+            return args[0] if args else None
+        return super().call_ext(interp, path, args, kwargs, node)
+
+    def sc_array(self, interp, args, kwargs, node):
+        vals = kwargs.get('values')
+        if isinstance(vals, list) and vals and all(isinstance(x, str) for x in vals) and kwargs.get('dims'):
+            items = []
+            for x in vals:
+                it_ = self.new(interp, None, None, 'string', why='string element')
+                it_.members['concrete'] = x
+                it_.members['dims'] = []
+                items.append(it_)
+            return self.array(interp, items, list(kwargs['dims'])[0])
+        return super().sc_array(interp, args, kwargs, node)
 
 
 def recovered(orig: str, got: str) -> bool:
@@ -204,20 +231,107 @@ def run(tier: str) -> Run:
         outcomes[nm] = o.kind if o.kind == 'raise' else o.value.attrs.get('_name')
     r2.check(outcomes == {'ok': 'ok', 'two words': 'raise', 'tab\there': 'raise', 'nl\nx': 'raise', 'é': '\\xe9'}, 'block names', loc(repo.func(MOD, 'Block.name.setter')),
              {'outcomes': outcomes}, key='block-name')
-    hfi = repo.func(MOD, '_write_file_heading')
-    r2.check("f.write('#\\\\#CIF_1.1\\n')" in [norm_(s) for s in ast.walk(hfi.node) if isinstance(s, ast.Expr)], 'file heading', loc(hfi), {}, key='heading')
+    # the file starts with the CIF 1.1 magic line, whichever way the blocks are handed over
+    sfi = repo.func(MOD, 'save_cif')
+    T.reset()
+    cm = CifModel()
+    cit = WitnessInterp(repo, cm)
+    for how in ('a single block', 'a tuple of blocks'):
+        sink = Sink()
+
+        def go(i, how=how, sink=sink):
+            blk = i.construct(block_cls, ['ok'], {}, None)
+            return i.call_function(sfi, [sink, blk if how == 'a single block' else (blk,)], {'comment': 'made by a test'})
+        outs = cit.run_all(go)
+        text = sink.text()
+        ok = len(outs) == 1 and outs[0].kind == 'return' and text.startswith('#\\#CIF_1.1\n') and 'data_ok' in text
+        r2.check(ok, f'file heading [{how}]', loc(sfi), {'file_starts_with': text[:40], 'outcomes': [(o.kind, o.exc_type, o.where) for o in outs]}, key='heading')
 
     # ---- R3 su columns ---------------------------------------------------------------------
     r3 = run.rule('R3', '_su columns are fed by stddevs, value columns by values', 2)
     pfi = repo.func(MOD, '_make_reduced_powder_loop')
-    texts = [norm_(s) for s in ast.walk(pfi.node) if isinstance(s, ast.stmt)]
-    ok = "res[coord_name+'_su']=sc.stddevs(coord)" in texts and "res[data_name+'_su']=sc.stddevs(data.data)" in texts \
-        and 'res[data_name]=sc.values(data.data)' in texts and any('coord_name:sc.values(coord)' in t_ for t_ in texts)
-    r3.check(ok, '_make_reduced_powder_loop', loc(pfi), {}, key='powder-su')
     kfi = repo.func(MOD, '_make_powder_calibration_loop')
-    texts = [norm_(s) for s in ast.walk(kfi.node) if isinstance(s, ast.stmt)]
-    ok = "res['pd_calib_d_to_tof.coeff_su']=sc.stddevs(data.data)" in texts and any("'pd_calib_d_to_tof.coeff':sc.values(data.data)" in t_ for t_ in texts)
-    r3.check(ok, '_make_powder_calibration_loop', loc(kfi), {}, key='calib-su')
+
+    def symbolic_data(i, m, dim, coord_unit, with_coord_var, with_data_var, coords_extra=None):
+        ys = []
+        for k in range(3):
+            y = sym_scalar(i, m, f'y{k}', Unit(), 1 + k)
+            if with_data_var:
+                y.members['var'] = sym_scalar(i, m, f'vy{k}', Unit(), 2 + k, positive=True)
+            ys.append(y)
+        xs = []
+        for k in range(3):
+            x = sym_scalar(i, m, f'x{k}', Unit.named(coord_unit), 10 + k)
+            if with_coord_var:
+                x.members['var'] = sym_scalar(i, m, f'vx{k}', Unit.named(coord_unit) ** 2, 1 + k, positive=True)
+            xs.append(x)
+        da = m.array(i, ys, dim)
+        da.kind = 'dataarray'
+        da.members['coords'] = {dim: m.array(i, xs, dim), **(coords_extra(i, m) if coords_extra else {})}
+        da.members['name'] = ''
+        return da
+
+    def column_terms(loop, name):
+        col = loop.attrs.get('_columns', {}).get(name) if isinstance(loop, SObj) else None
+        its = items_of(col) if isinstance(col, SVar) else None
+        return [x.term for x in its] if its is not None else None
+
+    for dim, cu, cname in (('tof', 'us', 'pd_meas.time_of_flight'), ('dspacing', 'angstrom', 'pd_proc.d_spacing')):
+        for cv, dv in ((True, True), (False, True), (True, False), (False, False)):
+            T.reset()
+            cm = CifModel()
+            cit = WitnessInterp(repo, cm)
+            outs = cit.run_all(lambda i, dim=dim, cu=cu, cv=cv, dv=dv: i.call_function(pfi, [symbolic_data(i, cm, dim, cu, cv, dv), 'a comment'], {}))
+            inst = f'_make_reduced_powder_loop[{dim}, coordinate variances={cv}, data variances={dv}]'
+            if len(outs) != 1 or outs[0].kind != 'return' or not isinstance(outs[0].value, SObj):
+                r3.fail(inst, loc(pfi), {'outcomes': [(o.kind, o.exc_type, o.where) for o in outs]}, key='powder-su')
+                continue
+            lp = outs[0].value
+            S_ = lambda n, pos=False: Rat.sym(n, positive=pos)  # noqa: E731
+            want = {cname: [S_(f'x{k}') for k in range(3)], 'pd_proc.intensity_norm': [S_(f'y{k}') for k in range(3)]}
+            if cv:
+                want[cname + '_su'] = [T.sqrt(S_(f'vx{k}', True)) for k in range(3)]
+            if dv:
+                want['pd_proc.intensity_norm_su'] = [T.sqrt(S_(f'vy{k}', True)) for k in range(3)]
+            cols = lp.attrs.get('_columns', {})
+            probs = []
+            for name, terms in want.items():
+                got = column_terms(lp, name)
+                if got is None or len(got) != 3 or not all(isinstance(g, Rat) and g.eq(w_) for g, w_ in zip(got, terms, strict=False)):
+                    probs.append(f'column {name}: {[T.show(g) if g is not None else None for g in got] if got else got}, expected {[T.show(t_) for t_ in terms]}')
+            extra = [k for k in cols if k.endswith('_su') and k not in want]
+            if extra:
+                probs.append(f'uncertainty columns without variances: {extra}')
+            r3.check(not probs, inst, loc(pfi), {'problems': probs[:3], 'columns': list(cols)}, key='powder-su')
+    for dv in (True, False):
+        T.reset()
+        cm = CifModel()
+        cit = WitnessInterp(repo, cm)
+
+        def powers(i, m):
+            items = []
+            for k, pw in enumerate((0, 1, 2)):
+                it_ = m.new(i, Rat.const(pw), Unit(), 'int64')
+                it_.members['concrete'] = pw
+                it_.members['dims'] = []
+                items.append(it_)
+            return {'power': m.array(i, items, 'cal')}
+        outs = cit.run_all(lambda i, dv=dv: i.call_function(kfi, [symbolic_data(i, cm, 'cal', 'us', False, dv, powers), 'c'], {}))
+        inst = f'_make_powder_calibration_loop[data variances={dv}]'
+        if len(outs) != 1 or outs[0].kind != 'return' or not isinstance(outs[0].value, SObj):
+            r3.fail(inst, loc(kfi), {'outcomes': [(o.kind, o.exc_type, o.where) for o in outs]}, key='calib-su')
+            continue
+        lp = outs[0].value
+        cols = lp.attrs.get('_columns', {})
+        got_v, got_su = column_terms(lp, 'pd_calib_d_to_tof.coeff'), column_terms(lp, 'pd_calib_d_to_tof.coeff_su')
+        ok = got_v is not None and all(isinstance(g, Rat) and g.eq(Rat.sym(f'y{k}')) for k, g in enumerate(got_v))
+        if dv:
+            ok = ok and got_su is not None and all(isinstance(g, Rat) and g.eq(T.sqrt(Rat.sym(f'vy{k}', positive=True))) for k, g in enumerate(got_su))
+        else:
+            ok = ok and 'pd_calib_d_to_tof.coeff_su' not in cols
+        ids = cols.get('pd_calib_d_to_tof.id')
+        ids_v = [x.members.get('concrete') for x in (items_of(ids) or [])] if isinstance(ids, SVar) else getattr(ids, 'members', {}).get('py_values')
+        r3.check(ok and ids_v == ['ZERO', 'DIFC', 'DIFA'], inst, loc(kfi), {'columns': list(cols), 'ids': ids_v}, key='calib-su')
 
     # ---- R4 author ids ----------------------------------------------------------------------
     r4 = run.rule('R4', 'author ids are unique across both author categories; every role id is an author id', 3)
